@@ -518,6 +518,10 @@ def run(ctx):
                 'literal runs of its regexps, its other constants; one level of imported extractor/filesystem helper packages; per_extractor.<name>.keywords lists the injected ones, 24/96 per extractor quick/thorough); '
                 'class kwdoc = one line <prefix><bytes><keyword><short tail> per keyword case variant x placement BEFORE/INSIDE/AFTER x byte class (Latin-1 high bytes, lone continuation bytes, truncated sequences, '
                 'U+023A/U+023E, U+0130, Kelvin sign, special-casing letters, combining marks, NUL, long runs); class kwline = the same bytes injected at an occurrence of the keyword inside a fixture, the rest of that line cut short. '
+                'STRUCTURE-AWARE SWEEP (harness/cmd/c02gen/structural.go), deterministic, classes st:<op>:t<k> (k-th target of operator <op>, targets ordered new-key-first then shallow-first) and sib:s<j>:<class> (the j-th file the extractor reads NEXT to the file under test is mutated instead: 0 = etc/os-release for every extractor that consults it, then the fixture\'s siblings): '
+                'JSON by an own span parser — every value (scalar, array element, whole array / object) replaced by null, "", [], {}, 0, [null], {"a":null}, "x", true, -1, 1e999, [[]]; every NUMBER by 0, 1, 2, 3, -1, a huge value; every member deleted, every array element deleted, null inserted in front of every array; version-like strings replaced by neighbouring values; '
+                'strings replaced by a keyword prefix + keyword suffix of the extractor OVERLAPPING by 0.. characters (e.g. __MSG__ for __MSG_ + __); key/value text (YAML, TOML, properties, os-release, MANIFEST) — every value replaced by each of ", \', "\\, \\, empty, "", =, :, null, ~, [], {}, 0, -1, [null], a blank; numbers, line deletion, affix strings likewise; '
+                'XML / plist — element text and attribute values replaced by empty, blank, 0, -1, &, <, ", ]]>, single-line elements deleted. Quick tier: per extractor the 3 fixtures that cover the most distinct member names, 20 targets per operator family, every operator at least once (null and [null] on every target); thorough: 10 fixtures, 80 targets, every operator on every target. '
                 'modelled/<fmt> = c03gen malformed inputs of the five line formats run on implementation and Lean model (pk must agree). '
                 'non-trivial = FileRequired accepted the path AND Extract returned at least one package (the parser got far enough to produce output); distinct = distinct case lines. '
                 'distribution key = "<mutation class> <status>"') % (MUTATIONS['quick'], MUTATIONS['thorough'])
